@@ -28,12 +28,14 @@ class SXF(SX):
     def candidates(self, fn, L, st, h, hs, E0, hE):
         out = SX.candidates(self, fn, L, st, h, hs, E0, hE)
         ids = sorted(hs)
-        for a in range(len(ids)):
-            for b in range(a + 1, len(ids)):
-                (xa, ia), (xb, ib) = hs[ids[a]], hs[ids[b]]
-                for sg in (1, -1):
-                    e = (xa + xb * sg) - (ia + ib * sg)
-                    out.append((('pair', ids[a], ids[b], sg), [e, -e]))
+        isptr = {pid: isinstance(h.env.get(('i', pid)), P) for pid in ids}
+        for a in ids:
+            for b in ids:
+                if isptr[a] and not isptr[b]:
+                    (xa, ia), (xb, ib) = hs[a], hs[b]
+                    for sg in (1, -1):
+                        e = (xa + xb * sg) - (ia + ib * sg)
+                        out.append((('pair', a, b, sg), [e, -e]))
         return out
 
     # (b) where the point is stored
@@ -87,7 +89,7 @@ def run_family(mod, T, fname, triple, fi_ranges):
     base, we, sh = triple
     args = [P(('fn', 'handler')), P(('arg', 1)), Fv(None), w, p, Lin.sym('ops'), Lin(base), Lin(we), Lin(sh)]
     st = sx.start(f, args, [-w, -p])
-    settable = set(T['flags'].values()) | {T['prec'], T['upper']}
+    settable = set(T['flags'].values()) | {T['prec']}      # the upper-case bit only selects characters (R-UPPER)
     for i in range(32):
         m = 1 << i
         b = Lin.sym(('ops', 'bit', i))
@@ -126,36 +128,48 @@ def sign_symbol(sx, st):
     return found
 
 
-def parse_layout(norm, buf):
-    """[spaces] [literal] [zeros] text [zeros] [text] [spaces]  ->  dict or None"""
+def parse_layout(sx, segs, buf):
+    """raw emission log of one path -> [spaces] [literal] [zeros] text [zeros] [text] [spaces]  (counts may be symbolic
+    and zero), or None when the log has another structure"""
     r = {'sp_l': None, 'lit': '', 'z_pad': None, 'body': None, 'z_fill': None, 'post': None, 'sp_r': None}
     k = 0
 
     def at(kind, pred=lambda s: True):
-        return k < len(norm) and norm[k][0] == kind and pred(norm[k])
-    if at('c', lambda s: s[1] == 32):
-        r['sp_l'] = norm[k][2]
+        return k < len(segs) and segs[k][0] == kind and pred(segs[k])
+
+    def isbuf(sg):
+        return isinstance(sg[1], P) and sg[1].base == buf
+
+    def islit(sg):
+        return isinstance(sg[1], P) and sg[1].base[0] == 'g' and sg[1].off.is_const() and sg[2].is_const()
+    if at('c', lambda sg: sg[1] == 32):
+        r['sp_l'] = segs[k][2]
         k += 1
-    if at('lit'):
-        r['lit'] = norm[k][1]
+    if at('m', islit):
+        p_, n = segs[k][1], segs[k][2].c
+        b = sx.global_bytes(p_.base[1]) or []
+        txt = ''.join(chr(x) for x in b[p_.off.c:p_.off.c + n])
+        if len(txt) != n or '\0' in txt:
+            return None
+        r['lit'] = txt
         k += 1
-    if at('c', lambda s: s[1] == 48):
-        r['z_pad'] = norm[k][2]
+    if at('c', lambda sg: sg[1] == 48):
+        r['z_pad'] = segs[k][2]
         k += 1
-    if not at('mem', lambda s: s[1] == buf):
+    if not at('m', isbuf):
         return None
-    r['body'] = (norm[k][2], norm[k][3])
+    r['body'] = (segs[k][1].off, segs[k][2])
     k += 1
-    if at('c', lambda s: s[1] == 48):
-        r['z_fill'] = norm[k][2]
+    if at('c', lambda sg: sg[1] == 48):
+        r['z_fill'] = segs[k][2]
         k += 1
-    if at('mem', lambda s: s[1] == buf):
-        r['post'] = (norm[k][2], norm[k][3])
+    if at('m', isbuf):
+        r['post'] = (segs[k][1].off, segs[k][2])
         k += 1
-    if at('c', lambda s: s[1] == 32):
-        r['sp_r'] = norm[k][2]
+    if at('c', lambda sg: sg[1] == 32):
+        r['sp_r'] = segs[k][2]
         k += 1
-    return r if k == len(norm) else None
+    return r if k == len(segs) else None
 
 
 class FastFlags(Flags):
@@ -217,17 +231,12 @@ def float_layout(sx, rets, f, T, wp, fam, default_prec=6):
 
         def fn(ctx, s=s, dots=dots, signs=signs):
             L = fl.get(ctx, '-')
-            Z = fl.get(ctx, '0')
-            PLUS = fl.get(ctx, '+')
-            SP = fl.get(ctx, ' ')
-            H = fl.get(ctx, '#')
-            G = fl.get(ctx, '.')
+            Z = (not L) and fl.get(ctx, '0')
             out = []
-            norm = norm_segments(sx, ctx, s.segs)
-            lay = parse_layout(norm, buf)
+            lay = parse_layout(sx, s.segs, buf)
             if lay is None:
                 return [('output is [spaces] sign [zeros] text [zeros] [exponent] [spaces]', False,
-                         'case {%s}: emitted %s' % (', '.join(ctx.desc), show_segments(norm)))]
+                         'case {%s}: emitted %s' % (', '.join(ctx.desc), show_segments(list(s.segs))))]
             out.append(('output is [spaces] sign [zeros] text [zeros] [exponent] [spaces]', True, None))
             zero = Lin(0)
             body_len = lay['body'][1]
@@ -237,7 +246,7 @@ def float_layout(sx, rets, f, T, wp, fam, default_prec=6):
             want = {'sp_l': zero, 'z_pad': zero, 'sp_r': zero}
             want['sp_r' if L else ('z_pad' if Z else 'sp_l')] = pad
             ok = all(ctx.eq(got[k], want[k]) for k in want)
-            flags = ''.join(c for c, v in (('-', L), ('0', Z)) if v)
+            flags = '-' if L else ('0' if Z else '')
             out.append(('padding with flags [%s]' % flags, ok, None if ok else
                         'case {%s}: spaces before %r, zeros after the sign %r, spaces after %r; ISO C requires %r, %r, %r '
                         '(width - everything else, placed %s)' % (', '.join(ctx.desc), got['sp_l'], got['z_pad'], got['sp_r'],
@@ -245,20 +254,22 @@ def float_layout(sx, rets, f, T, wp, fam, default_prec=6):
                                                                  'right' if L else ('as zeros' if Z else 'left'))))
             if len(signs) == 1:
                 neg = signs[0][1]
+                PLUS = (not neg) and fl.get(ctx, '+')
+                SP = (not neg) and (not PLUS) and fl.get(ctx, ' ')
                 exp = '-' if neg else ('+' if PLUS else (' ' if SP else ''))
                 ok = lay['lit'] == exp
-                out.append(('sign with flags [%s]%s' % (''.join(c for c, v in (('+', PLUS), (' ', SP)) if v),
-                                                        ', negative value' if neg else ''), ok,
+                out.append(('sign %s' % ('of a negative value' if neg else 'with flags [%s]' % ('+' if PLUS else (' ' if SP else ''))), ok,
                             None if ok else 'case {%s}: the text starts with %r, ISO C requires %r'
                             % (', '.join(ctx.desc), lay['lit'], exp)))
             else:
                 out.append(('sign is decided by the sign bit of the value', False,
                             'the path does not decide the sign of the value exactly once (%d tests)' % len(signs)))
             if fam in ('f', 'e'):
+                G = fl.get(ctx, '.')
                 peff = p if G else Lin(default_prec)
                 zl = lay['z_fill'] or zero
                 pos = ctx.test('sge', peff, 1, 'precision >= 1')
-                need_dot = pos or H
+                need_dot = pos or fl.get(ctx, '#')
                 key = 'point present iff precision > 0 or #'
                 if len(dots) > 1:
                     out.append((key, False, 'more than one point is stored on a path'))
